@@ -52,9 +52,7 @@ func verifyGatesC01() []gate.Gate {
 		gate.CallOK("V.alg", "signingalgorithm.VerifierForPublicKey", tChain0+".Cert.PublicKey"),
 		gate.CallOK("V.tcall", "signedexchange.verifyTimestamps", "param:signature", "param:verificationTime"),
 		gate.CallOK("V.msg", "signedexchange.serializeSignedMessage", "param:e", tCertSha, "param:signature.ValidityUrl", "param:signature.Date", "param:signature.Expires"),
-		either("V.certsha", "bytes.Equal(exact(sig.CertSha256), exact(chain[0].CertSha256()))",
-			gate.CallBool("", "bytes.Equal", true, "param:signature.CertSha256", tCertSha),
-			gate.CallBool("", "bytes.Equal", true, tCertSha, "param:signature.CertSha256")),
+		bytesEqual("V.certsha", "bytes.Equal(exact(sig.CertSha256), exact(chain[0].CertSha256()))", "param:signature.CertSha256", tCertSha),
 		gate.CallOK("V.sig.err", "invoke:signingalgorithm.Verifier.Verify", tVerifier, tMsgCall+"#0", "param:signature.Sig"),
 		gate.CallBool("V.sig.ok", "invoke:signingalgorithm.Verifier.Verify", true, tVerifier, tMsgCall+"#0", "param:signature.Sig"),
 		gate.CallOK("V.paycall", "signedexchange.verifyPayload", "param:e", "param:signature"),
